@@ -374,7 +374,12 @@ class PluginGroup(Generic[T], metaclass=PluginGroupMeta):
 
         for dep_ref in self._explicit_plugin_deps(plugin):
             dep_grp = plugingroups[dep_ref.group]
-            dep_grp._ensure_is_loaded(dep_ref)
+            # a dependency is a request - take the newest version that supports it
+            found = dep_grp.resolve(dep_ref.name, dep_ref.version)
+            if found is None:
+                msg = f"{ep_name}: No installed plugin is compatible with {dep_ref}!"
+                raise TypeError(msg)
+            dep_grp._ensure_is_loaded(found)
 
         self.init_plugin(plugin)
 
